@@ -3,7 +3,7 @@
    gate's abstraction of a signed message, what Validation/HonestRound.v calls an honest item - so every one of
    them is accepted by every correct peer's validator, in any arrival order (honest_round_accepted_at_the_gate). *)
 From Coq Require Import List NArith ZArith Bool Lia.
-From SSV Require Import Qbft.Model Qbft.SyncRound Qbft.SyncGeneric Qbft.Bridge.
+From SSV Require Import Qbft.Model Qbft.SyncRound Qbft.SyncGeneric Qbft.RecoverGeneric Qbft.Bridge.
 From SSV Require Validation.Model Gen.ValidationConsts Validation.HonestRound.
 Import ListNotations.
 Local Open Scope N_scope.
@@ -85,7 +85,7 @@ Qed.
 (* every broadcast of every operator is an honest item of the gate *)
 Theorem round_broadcasts_are_honest_items : forall i m,
   In i (committee qc) -> In m (round_broadcasts qc h ld i) ->
-  exists t s, gate_msg fdlen true m = HR.hmsg h value_name fdlen t s /\ HR.honest_item sh ld (t, s).
+  exists t s, gate_msg fdlen true m = HR.hmsg h VC.firstRound value_name fdlen 0 t s /\ HR.honest_item sh ld (t, s).
 Proof.
   intros i m Hi Hm. unfold round_broadcasts in Hm. apply in_app_or in Hm.
   assert (Hi0 : i <> 0) by (intros ->; contradiction).
@@ -102,3 +102,63 @@ Proof.
 Qed.
 
 End Gate.
+
+(* ---- the recovery round after a silent first round (C07_recovery_from_silent_round) ------------------------ *)
+
+(* what operator [i] broadcasts in round 2 (recover_bcasts without the round-1 proposal of a live first leader,
+   which nobody was given): its round change, the leader's proposal justified by the first quorum of round
+   changes, its prepare and its commit *)
+Definition round2_broadcasts (c : cfg) (h ld2 : N) (live : list N) (i : N) : list smsg :=
+  let rt := hash (start_value ld2) in
+  [rcm h i] ++
+  (if ld2 =? i then [prop2 c h ld2 (firstn (N.to_nat (quorum c)) live)] else []) ++
+  [fm2 h T_PREPARE rt i; fm2 h T_COMMIT rt i].
+
+Lemma round2_in_recover_bcasts : forall c h ld1 ld2 live i m,
+  In m (round2_broadcasts c h ld2 live i) -> In m (recover_bcasts c h ld1 ld2 live i).
+Proof.
+  intros c h ld1 ld2 live i m H. unfold recover_bcasts. apply in_or_app. right. exact H.
+Qed.
+
+Section Gate2.
+Variables (qc : cfg) (sh : V.share) (h ld2 fdlen : N) (live : list N).
+Hypothesis Hcomm : V.s_committee sh = committee qc.
+Hypothesis Hz : ~ In 0 (committee qc).
+Hypothesis Hlive : forall y, In y live -> In y (committee qc).
+Hypothesis Hld : proposer qc h R2 = Some ld2.
+Hypothesis Hh : h < 18446744073709551616.
+
+Definition nrc2 : N := N.of_nat (length (firstn (N.to_nat (quorum qc)) live)).
+
+Lemma leader2_is : V.round_robin (V.s_committee sh) h 2 = V.LeaderIs ld2.
+Proof.
+  rewrite Hcomm. pose proof (leader_models_agree qc h 2 Hh ltac:(reflexivity)) as A.
+  change R2 with 2 in Hld.
+  destruct (V.round_robin (committee qc) h 2) as [x|p]; rewrite Hld in A; [|discriminate].
+  inversion A; reflexivity.
+Qed.
+
+Theorem round2_broadcasts_are_honest_items : forall i m,
+  In i live -> In m (round2_broadcasts qc h ld2 live i) ->
+  exists t s, gate_msg fdlen true m = HR.hmsg h 2 (value_name ld2) fdlen nrc2 t s /\ HR.honest_item sh ld2 (t, s).
+Proof.
+  intros i m Hi Hm. unfold round2_broadcasts in Hm. cbn [app] in Hm.
+  assert (Hic : In i (committee qc)) by (apply Hlive; exact Hi).
+  assert (Hi0 : i <> 0) by (intros ->; contradiction).
+  assert (Hin : V.in_committee i sh = true) by (apply (in_committee_iff qc sh Hcomm); exact Hic).
+  destruct Hm as [<-|Hm].
+  - exists VC.qbftRoundChangeMsgType, i. split; [reflexivity|].
+    unfold HR.honest_item. repeat split; auto; discriminate.
+  - apply in_app_or in Hm. destruct Hm as [Hm|[<-|[<-|[]]]].
+    + destruct (N.eqb_spec ld2 i) as [->|]; [|destruct Hm]. destruct Hm as [<-|[]].
+      exists VC.qbftProposalMsgType, i. split.
+      * unfold gate_msg, prop2, own_core, HR.hmsg, value_name, start_value, nrc2. cbn.
+        rewrite N.eqb_refl, map_length. reflexivity.
+      * unfold HR.honest_item. repeat split; auto.
+    + exists VC.qbftPrepareMsgType, i. split; [reflexivity|].
+      unfold HR.honest_item. repeat split; auto; discriminate.
+    + exists VC.qbftCommitMsgType, i. split; [reflexivity|].
+      unfold HR.honest_item. repeat split; auto; discriminate.
+Qed.
+
+End Gate2.
